@@ -2,6 +2,7 @@ CONSTANTS
   CropClamp = TRUE
   StartClamp = TRUE
   CtorLen = FALSE
+  CropUpper = TRUE
   MCDepth = 3
 SPECIFICATION Spec
 INVARIANT Refines
